@@ -5,10 +5,27 @@ import SqlizeModel.Impl.Stmt
 
 namespace Sqlize
 
-/-- `hasChangedMysqlOptions(new, old)`: as written the multiset comparison compares `old` with itself
-    (`mNew` is filled from `old`, defect F3), so only the lengths are compared. -/
+/-- the bare `reference` options `AddForeignKey` attaches to a column are not part of the comparison -/
+def withoutFkMarks (opts : List Opt) : List Opt := opts.filter (fun o => !(o.kind == .reference && !o.hasExpr))
+
+/-- `optionKey`: kind and restored value (`"<Tp> <StrValue>"` for options built without an expression node) -/
+def Opt.key (o : Opt) : String :=
+  match o.kind with
+  | .default => if o.hasExpr then "DEFAULT " ++ defaultCanon o.dflt else "raw-default " ++ defaultCanon o.dflt
+  | .comment => if o.hasExpr then "COMMENT '" ++ o.text.replace "'" "''" ++ "'" else "raw-comment " ++ o.text
+  | .primaryKey => "PRIMARY KEY"
+  | .notNull => "NOT NULL"
+  | .null => "NULL"
+  | .autoIncrement => "AUTO_INCREMENT"
+  | .uniqKey => "UNIQUE KEY"
+  | .reference => "REFERENCES"
+
+/-- `hasChangedMysqlOptions(new, old)`: different number of options, or some option (kind + value) of `old` occurs a
+    different number of times in `new` -/
 def hasChangedOptions (new old : List Opt) : Bool :=
-  new.length != old.length
+  let n := (withoutFkMarks new).map Opt.key
+  let o := (withoutFkMarks old).map Opt.key
+  n.length != o.length || o.any (fun k => n.count k != o.count k)
 
 /-- `hasChangedMysqlType || hasChangePostgresType`: `new != nil && new.String() != old.String()`
     (nil `old` is dereferenced); SQLite types are never compared. -/
@@ -42,20 +59,24 @@ def diffCols1 (d : Dialect) (old : Table) : List Column → M (List Column)
     let rest' ← diffCols1 d old rest
     pure (c' :: rest')
 
-/-- second loop: merge the dropped columns of `old` into `t`, at the *old index* of their predecessor + 1 (F2) -/
-def diffCols2 (mysql : Bool) (old : Table) (t : Table) : Nat → List Column → M Table
+/-- position (in the merged list `t`) right after the nearest predecessor that is live in `old`; 0 when there is none -/
+def mergePos (t : Table) (before : List Column) : Nat :=
+  match before.reverse.find? (·.action != .none) with
+  | some p => match t.colIdx.get? p.name with
+    | some id => id + 1
+    | none => 0
+  | none => 0
+
+/-- second loop: merge the dropped columns of `old` into `t`, right after their old predecessor's position in the
+    merged list.  `before` = the columns of `old` in front of the current one. -/
+def diffCols2 (mysql : Bool) (t : Table) : List Column → List Column → M Table
   | _, [] => pure t
-  | j, oc :: rest => do
+  | before, oc :: rest => do
     let t' ← (if oc.action == .add && (t.colIdx.get? oc.name).isNone then do
         let t1 ← t.addColumn { oc with action := .remove } mysql
-        if j == 0 then t1.swapOrder oc.name (t1.cols.length - 1) 0
-        else do
-          let p ← getIdx "Table.Diff" old.cols (j - 1)
-          match old.colIdx.get? p.name with
-          | some newID => t1.swapOrder oc.name (t1.cols.length - 1) (newID + 1)
-          | none => pure t1
+        t1.swapOrder oc.name (t1.cols.length - 1) (mergePos t1 before)
       else pure t : M Table)
-    diffCols2 mysql old t' (j + 1) rest
+    diffCols2 mysql t' (before ++ [oc]) rest
 
 def diffIdx1 (old : Table) : List Index → M (List Index)
   | [] => pure []
@@ -66,7 +87,7 @@ def diffIdx1 (old : Table) : List Index → M (List Index)
           let oi ← getIdx "Table.Diff" old.idxs j
           if oi.action != .none then
             if i.typ == oi.typ && i.cols == oi.cols then pure { i with action := .none }
-            else pure { oi with action := .modify }        -- overwritten by the *old* record (F4)
+            else pure { i with action := .modify, prev := some oi.toDef }
           else pure i
         | none => pure i
       else pure i : M Index)
@@ -103,7 +124,7 @@ def diffFk2 (t : Table) : List ForeignKey → M Table
 def diff (d : Dialect) (t old : Table) : M Table := do
   let cols ← diffCols1 d old t.cols
   let t := { t with cols := cols }
-  let t ← diffCols2 (d == .mysql) old t 0 old.cols
+  let t ← diffCols2 (d == .mysql) t [] old.cols
   let idxs ← diffIdx1 old t.idxs
   let t := { t with idxs := idxs }
   let t ← diffIdx2 t old.idxs
@@ -113,6 +134,9 @@ def diff (d : Dialect) (t old : Table) : M Table := do
 
 end Table
 
+/-- a table the old history created and dropped again (`none`) or only dropped (`remove`) does not exist -/
+def Table.exists_ (t : Table) : Bool := t.action != .none && t.action != .remove
+
 namespace Migration
 
 def diffTables1 (d : Dialect) (old : Migration) : List Table → M (List Table)
@@ -121,8 +145,10 @@ def diffTables1 (d : Dialect) (old : Migration) : List Table → M (List Table)
     let t' ← (match old.tblIdx.get? t.name with
       | some j => do
         let ot ← getIdx "Migration.Diff" old.tables j
-        let t1 ← t.diff d ot
-        pure { t1 with action := .none }
+        if ot.exists_ then do
+          let t1 ← t.diff d ot
+          pure { t1 with action := .none }
+        else pure t
       | none => pure t : M Table)
     let rest' ← diffTables1 d old rest
     pure (t' :: rest')
@@ -130,7 +156,7 @@ def diffTables1 (d : Dialect) (old : Migration) : List Table → M (List Table)
 def diffTables2 (m : Migration) : List Table → M Migration
   | [] => pure m
   | ot :: rest => do
-    let m' ← (if (m.tblIdx.get? ot.name).isNone then m.addTable { ot with action := .remove } else pure m : M Migration)
+    let m' ← (if (m.tblIdx.get? ot.name).isNone && ot.exists_ then m.addTable { ot with action := .remove } else pure m : M Migration)
     diffTables2 m' rest
 
 /-- `Migration.Diff(old)` -/
